@@ -75,6 +75,10 @@ func (d *Dialer) connect(ctx context.Context, c net.Conn, address string) (_ net
 	if am == AuthMethodNoAcceptableMethods {
 		return nil, errors.New("no acceptable authentication methods")
 	}
+	if (len(d.AuthMethods) == 0 || d.Authenticate == nil) && am != AuthMethodNotRequired {
+		// Only "no authentication required" was offered.
+		return nil, errors.New("unexpected authentication method " + strconv.Itoa(int(am)))
+	}
 	if d.Authenticate != nil {
 		if ctxErr = d.Authenticate(ctx, c, am); ctxErr != nil {
 			return
